@@ -127,7 +127,10 @@ def run(phase, cases, ctx):
                     violations.append({'kind': 'library-raises', 'case': case, 'detail': f'{label}: {err}\n{err.tb}'})
             # block values wider than the leaf dtype: the result must be numpy.einsum's, in value and dtype kind
             if case.get('extra', [2]) == [2]:
-                for bdt, xdt in ((np.float32, np.int32), (np.complex64, np.float32), (np.float32, np.float16)):
+                # (float32 and complex64 blocks on the same float32 leaf, in either order: two operators that differ in nothing
+                # but the dtype of their blocks)
+                same_leaf = ((np.float32, np.float32), (np.complex64, np.float32))
+                for bdt, xdt in ((np.float32, np.int32),) + (same_leaf if len(sub) % 2 else same_leaf[::-1]) + ((np.float32, np.float16),):
                     Bm = (B1 * (0.5 + 0.25j) if bdt == np.complex64 else B1 * 0.5 + 0.25).astype(bdt)
                     xm = (x1 * 3 - 4).astype(xdt)
                     try:
@@ -136,6 +139,10 @@ def run(phase, cases, ctx):
                         want = np.einsum(sub, Bm, xm)
                         if got.dtype.kind != np.asarray(want).dtype.kind or got.shape != want.shape or not np.allclose(got, want, rtol=2e-3 if xdt == np.float16 else 1e-5):
                             violations.append({'kind': 'mixed-dtype-mv', 'case': case, 'detail': f'blocks {np.dtype(bdt)} x leaf {np.dtype(xdt)}: got {got.dtype} {got.ravel()[:4]}, numpy.einsum {want.dtype} {np.asarray(want).ravel()[:4]}'})
+                        declared = opm.out_structure()
+                        if tuple(declared.shape) != got.shape or np.dtype(declared.dtype) != got.dtype:
+                            violations.append({'kind': 'mixed-dtype-out-structure', 'case': case,
+                                               'detail': f'blocks {np.dtype(bdt)} x leaf {np.dtype(xdt)}: out_structure() declares {declared} but mv returns {got.dtype}{got.shape}'})
                     except Exception as e:  # noqa: BLE001
                         err = P.LibError('dense operator with mixed dtypes', e)
                         violations.append({'kind': 'library-raises', 'case': case, 'detail': f'{err}\n{err.tb}'})
